@@ -12,6 +12,7 @@ import (
 	"sort"
 	"strings"
 	"testing"
+	"time"
 
 	"github.com/restic/restic/internal/data"
 	"github.com/restic/restic/internal/global"
@@ -121,8 +122,201 @@ func vC27Listing(m map[string]vListNode, orig map[string]vListNode) []vC27Ent {
 	return res
 }
 
+type vC27Snap struct {
+	id      string
+	rid     restic.ID
+	tree    restic.ID
+	orig    map[string]vListNode
+	ents    []vC27Ent
+	entries []vEntry
+	built   bool
+}
+
+// vC27Multi: ONE `restic rewrite` invocation over two or three snapshots of one repository (no ids = all snapshots, or
+// an explicit id list); one record per selected snapshot, judged by the same Fn_Select!RewriteOK: its tree minus exactly
+// what matched in IT, its own summary statistics, and no new snapshot when nothing matched in it - whatever the other
+// snapshots of the same invocation contain.
+func vC27Multi(t *testing.T, res *kit.Result, recs *kit.NDJSON, rnd *rand.Rand) {
+	ctx := context.Background()
+	names := []string{"a", "b", "ab", "A", "Ab"}
+	nRepos := kit.Pick(3, 12)
+	perRepo := kit.Pick(16, 60)
+	for ri := 0; ri < nRepos; ri++ {
+		e := newVEnv(t, nil)
+		if err := e.init("2"); err != nil {
+			t.Fatal(err)
+		}
+		nSnaps := 2 + ri%2
+		var snaps []*vC27Snap
+		for si := 0; si < nSnaps; si++ {
+			var entries []vEntry
+			for len(entries) < 4 {
+				entries = vGenTree(rnd, names, 3)
+			}
+			sn := &vC27Snap{built: (ri+si)%3 == 1}
+			if sn.built {
+				var nodes []vBNode
+				for _, en := range entries {
+					nodes = append(nodes, vBNode{Path: en.Path, Type: en.Type, Key: fmt.Sprintf("%d/%s", si, en.Path), Meta: rnd.Intn(3)})
+				}
+				sort.Slice(nodes, func(i, j int) bool { return nodes[i].Path < nodes[j].Path })
+				sn.id = vBuildSnapshot(t, e, nodes, vBTime.Add(time.Duration(si)*time.Hour))
+			} else {
+				sn.id = vBackupTree(t, e, entries, 100+ri*10+si)
+			}
+			sn.entries = entries
+			sn.rid, _ = restic.ParseID(sn.id)
+			repo := vOpenIndexed(t, e)
+			s, err := data.LoadSnapshot(ctx, repo, sn.rid)
+			if err != nil {
+				t.Fatal(err)
+			}
+			sn.tree = *s.Tree
+			if sn.orig, err = vListTree(ctx, repo, sn.tree); err != nil {
+				t.Fatal(err)
+			}
+			sn.ents = vC27Listing(sn.orig, nil)
+			snaps = append(snaps, sn)
+		}
+		for k := 0; k < perRepo; k++ {
+			mode := []string{"exclude", "include"}[k%2]
+			var sel vSel
+			switch {
+			case k < perRepo/2:
+				// the exact path of an entry of one of the snapshots: the other snapshots are often not touched at all
+				en := snaps[k%nSnaps].entries
+				sel = vSel{Mode: mode, Pats: vSelPats("/" + en[rnd.Intn(len(en))].Path), IPats: []vSelPat{}}
+			case k < perRepo*3/4:
+				sel = vSel{Mode: mode, Pats: vSelPats(vSelPool[rnd.Intn(len(vSelPool))]), IPats: []vSelPat{}}
+			default:
+				sel = vDrawSel(rnd, mode)
+			}
+			opts := RewriteOptions{}
+			p, ip := sel.raws()
+			if mode == "include" {
+				opts.Includes, opts.InsensitiveIncludes = p, ip
+			} else {
+				opts.Excludes, opts.InsensitiveExcludes = p, ip
+			}
+			// which snapshots the invocation names: none (= all of the repository), or all but one explicitly
+			selected := snaps
+			var ids []string
+			if k%4 == 3 {
+				skip := rnd.Intn(nSnaps)
+				selected = nil
+				for i, sn := range snaps {
+					if i != skip || nSnaps == 2 {
+						selected = append(selected, sn)
+						ids = append(ids, sn.id)
+					}
+				}
+			}
+			before := map[string]bool{}
+			for _, s := range e.snapshotIDs() {
+				before[s] = true
+			}
+			err := e.rewrite(opts, ids...)
+			repo := vOpenIndexed(t, e)
+			type newSnap struct {
+				id string
+				sn *data.Snapshot
+			}
+			var fresh []newSnap
+			present := map[string]bool{}
+			for _, s := range e.snapshotIDs() {
+				present[s] = true
+				if !before[s] {
+					sid, _ := restic.ParseID(s)
+					nsn, lerr := data.LoadSnapshot(ctx, repo, sid)
+					if lerr != nil {
+						nsn = nil
+					}
+					fresh = append(fresh, newSnap{s, nsn})
+				}
+			}
+			// new snapshots that belong to none of the selected originals
+			unowned := 0
+			for _, f := range fresh {
+				owned := false
+				for _, sn := range selected {
+					if f.sn != nil && f.sn.Original != nil && *f.sn.Original == sn.rid {
+						owned = true
+					}
+				}
+				if !owned {
+					unowned++
+				}
+			}
+			for i, sn := range selected {
+				rec := map[string]any{"op": "rewrite", "sel": sel, "snap": sn.ents, "err": err != nil, "tree": 1000 + ri*10 + i, "built": sn.built,
+					"invocation": fmt.Sprintf("%d snapshots, ids given: %v, position %d", len(selected), len(ids) > 0, i)}
+				if err != nil {
+					rec["errmsg"] = err.Error()
+				}
+				origKept := false
+				if present[sn.id] {
+					o, lerr := data.LoadSnapshot(ctx, repo, sn.rid)
+					origKept = lerr == nil && o.Tree != nil && *o.Tree == sn.tree
+				}
+				changed := false
+				extra := 0
+				if i == 0 {
+					extra = unowned
+				}
+				listing := sn.orig
+				var sumFiles, sumBytes uint64
+				for _, f := range fresh {
+					if f.sn == nil || f.sn.Original == nil || *f.sn.Original != sn.rid {
+						continue
+					}
+					if changed {
+						extra++
+						continue
+					}
+					changed = true
+					var lerr error
+					listing, lerr = vListTree(ctx, repo, *f.sn.Tree)
+					if lerr != nil {
+						res.Problem("listing of rewritten snapshot failed: %v", lerr)
+						listing = map[string]vListNode{}
+					}
+					if f.sn.Summary != nil {
+						sumFiles, sumBytes = uint64(f.sn.Summary.TotalFilesProcessed), f.sn.Summary.TotalBytesProcessed
+					}
+				}
+				rec["origkept"] = origKept
+				rec["changed"], rec["extra"] = changed, extra
+				rec["new"] = vC27Listing(listing, sn.orig)
+				rec["sumfiles"], rec["sumbytes"] = sumFiles, sumBytes
+				recs.Write(rec)
+				res.Case(fmt.Sprintf("multi|%d|%d|%s|%v", ri, i, sel, len(ids) > 0), changed && len(listing) > 0)
+				res.Count("multi_snapshot_records", 1)
+				if changed {
+					res.Count("multi_snapshot_records_changed", 1)
+				} else {
+					res.Count("multi_snapshot_records_unchanged", 1)
+				}
+			}
+			res.Count("multi_snapshot_invocations", 1)
+			for _, f := range fresh {
+				sid, _ := restic.ParseID(f.id)
+				_ = repo.RemoveUnpacked(ctx, restic.WriteableSnapshotFile, sid)
+			}
+			gone := false
+			for _, sn := range snaps {
+				if !present[sn.id] {
+					gone = true
+				}
+			}
+			if gone {
+				break // an original was removed (reported through origkept); this repository is used up
+			}
+		}
+	}
+}
+
 func TestVerif_C27(t *testing.T) {
-	res := kit.NewResult("one case = one real `restic rewrite` of a generated snapshot (depth <= 3 over names {a,b,ab,A,Ab}; real backups and hand-built trees in which identical subtrees occur under several paths) with a pattern set (exclude or include; 1-3 patterns from a pool of 40 globs incl. '**', absolute/relative, negations, case-insensitive patterns, and the exact paths of entries of the tree); distinct by (tree, pattern set); non-trivial when the rewrite removes some but not all entries")
+	res := kit.NewResult("one case = one snapshot processed by a real `restic rewrite` (one snapshot per invocation, and invocations over 2-3 snapshots of one repository at once, with and without an id list): a generated snapshot (depth <= 3 over names {a,b,ab,A,Ab}; real backups and hand-built trees in which identical subtrees occur under several paths) with a pattern set (exclude or include; 1-3 patterns from a pool of 40 globs incl. '**', absolute/relative, negations, case-insensitive patterns, and the exact paths of entries of the tree); distinct by (tree, pattern set); non-trivial when the rewrite removes some but not all entries")
 	recs := kit.NewNDJSON("recs.ndjson")
 	defer recs.Close()
 	rnd := kit.Rand(27)
@@ -267,6 +461,7 @@ func TestVerif_C27(t *testing.T) {
 			}
 		}
 	}
+	vC27Multi(t, res, recs, kit.Rand(2727))
 	_ = filepath.Join
 	res.Save("")
 }
